@@ -325,6 +325,29 @@ def check_bm_two_types(ctx):
     ctx.expect(paths, ret=2)
 
 
+def check_bm_cmp_tv(ctx):
+    size = 1 << 32
+    b0 = ctx.sandbox_base(32, "b0", aligned=False)
+    cell = ctx.sym("cell", 64)
+    cell2 = ctx.sym("cell2", 64)
+    v = ctx.sym("v", 64)
+    ctx.assume(z3.UGE(cell, b0), z3.ULE(cell - b0, BV(size - 4, 64)), z3.UGE(cell2, b0), z3.ULE(cell2 - b0, BV(size - 4, 64)))
+    ctx.assume(z3.Or(v == 0, z3.And(z3.UGT(v, b0), z3.ULT(v - b0, BV(size, 64)))))
+    mem0 = ctx.eng.initial_memory()
+    rd = lambda c_: z3.Concat(*[z3.Select(mem0, c_ + BV(i, 64)) for i in reversed(range(4))])
+    A = z3.If(rd(cell) == 0, BV(0, 64), b0 + zext(rd(cell), 64))
+    B = z3.If(rd(cell2) == 0, BV(0, 64), b0 + zext(rd(cell2), 64))
+    paths = ctx.run("k_bm_cmp_tv", [b0, cell, v, cell2])
+    bit = lambda c_: z3.If(c_, BV(1, 64), BV(0, 64))
+    for q in paths:
+        if q.status != "ret":
+            ctx.fail(q, "comparing a tainted pointer with a sandbox-resident pointer ended %s (%s)" % (q.status, q.info))
+            continue
+        want = bit(v == A) | (bit(A == v) << 1) | (bit(v != A) << 2) | (bit(A == B) << 3)
+        ctx.require(q, q.ret == want, "== and != with a sandbox-resident pointer on either side compare the addresses obtained by translating relative to the owning sandbox")
+    ctx.expect(paths, ret=1)
+
+
 def check_bm_after_dead(ctx):
     size = 1 << 32
     bx = ctx.sandbox_base(32, "bx", aligned=False)
@@ -413,6 +436,7 @@ def jobs(tier, seed):
     for k in ("k_bm_store_load", "k_bm_load", "k_bm_store_null_load"):
         out.append(Job("C04_BM_" + k, src, [dict(name="BM " + k, fn=check_bm, kw=dict(k=k))], unwind=200))
     out.append(Job("C04_BM_cross", src, [dict(name="BM k_bm_store_load value in any live sandbox", fn=check_bm, kw=dict(k="k_bm_store_load", cross=True))], unwind=200, native=False))
+    out.append(Job("C04_BM_cmp_tv", src, [dict(name="BM comparison with a sandbox-resident pointer on either side", fn=check_bm_cmp_tv)], unwind=200, native=False))
     out.append(Job("C04_BM_two_types", src, [dict(name="BM translation while a sandbox of another plugin type is alive", fn=check_bm_two_types)], unwind=200, native=False))
     out.append(Job("C04_BM_after_dead", src, [dict(name="BM lookup after the previously used sandbox was destroyed", fn=check_bm_after_dead)], unwind=200, native=False))
     out.append(Job("C04_BM_failed_create", src, [dict(name="BM k_bm_failed_create", fn=check_bm_failed)], unwind=200, native=False))
